@@ -36,7 +36,7 @@ def _getformat(val):
     string
         the format string.
     """
-    if int(val) == val:
+    if np.isfinite(val) and int(val) == val:
         return "%.1f"
     else:
         return "%.16g"
@@ -268,7 +268,7 @@ class _ToInf(TokenConverter):
         float
             the float value for infinity.
         """
-        return float('inf')
+        return float('-inf') if tokenlist[0].startswith('-') else float('inf')
 
 
 class InputFileGenerator(object):
@@ -1089,9 +1089,9 @@ class FileParser(object):
         ))
 
         # special case for a float written like "3e5"
-        mixed_exp = _ToFloat(Combine(digits + ee + Optional(sign) + digits))
+        mixed_exp = _ToFloat(Combine(Optional(sign) + digits + ee + Optional(sign) + digits))
 
-        nan = (_ToInf(oneOf("Inf -Inf")) |
+        nan = (_ToInf(Combine(Optional("-") + oneOf("Inf inf", asKeyword=True))) |
                _ToNan(oneOf("NaN nan NaN%  NaNQ NaNS qNaN sNaN 1.#SNAN 1.#QNAN -1.#IND")))
 
         string_text = Word(textchars)
